@@ -100,10 +100,10 @@ def run_family(ctx, cases, what, clauses, extra_sig=None, accept=None):
     return traces, viols, bad
 
 
-def replay_case(ctx, rep, clauses):
+def replay_case(ctx, rep, clauses, extra_sig=None, accept=None):
     case = rep["case"]
     traces = sysfam.run_cases(ctx, [case])
-    sysfam.judge(ctx, [case], traces, "replay", clauses=clauses)
+    sysfam.judge(ctx, [case], traces, "replay", clauses=clauses, extra_sig=extra_sig, accept=accept)
     ctx.count(evaluations=1, nontrivial=2)
     ctx.sample(case)
 
